@@ -161,6 +161,7 @@ class SyncObj(object):
         self.__raftLeader = None
         self.__raftElectionDeadline = monotonicTime() + self.__generateRaftTimeout()
         self.__raftLog = createJournal(self.__conf.journalFile)
+        self.__raftCurrentTerm, self.__votedForNodeId = self.__raftLog.getRaftTermAndVote()
         if len(self.__raftLog) == 0:
             self.__raftLog.add(_bchr(_COMMAND_TYPE.NO_OP), 1, self.__raftCurrentTerm)
         self.__raftCommitIndex = self.__raftLog.getRaftCommitIndex()
@@ -581,8 +582,7 @@ class SyncObj(object):
                 self.__raftElectionDeadline = monotonicTime() + self.__generateRaftTimeout()
                 self.__raftLeader = None
                 self.__setState(_RAFT_STATE.CANDIDATE)
-                self.__raftCurrentTerm += 1
-                self.__votedForNodeId = self.__selfNode.id
+                self.__setTermAndVote(self.__raftCurrentTerm + 1, self.__selfNode.id)
                 self.__votesCount = 1
                 for node in self.__otherNodes:
                     self.__transport.send(node, {
@@ -865,8 +865,7 @@ class SyncObj(object):
         if message['type'] == 'request_vote' and self.__selfNode is not None:
 
             if message['term'] > self.__raftCurrentTerm:
-                self.__raftCurrentTerm = message['term']
-                self.__votedForNodeId = None
+                self.__setTermAndVote(message['term'], None)
                 self.__setState(_RAFT_STATE.FOLLOWER)
                 self.__raftLeader = None
 
@@ -882,7 +881,7 @@ class SyncObj(object):
                     if self.__votedForNodeId is not None:
                         return
 
-                    self.__votedForNodeId = node.id
+                    self.__setTermAndVote(self.__raftCurrentTerm, node.id)
 
                     self.__raftElectionDeadline = monotonicTime() + self.__generateRaftTimeout()
                     self.__transport.send(node, {
@@ -896,8 +895,7 @@ class SyncObj(object):
                 self.__onLeaderChanged()
             self.__raftLeader = node
             if message['term'] > self.__raftCurrentTerm:
-                self.__raftCurrentTerm = message['term']
-                self.__votedForNodeId = None
+                self.__setTermAndVote(message['term'], None)
             self.__setState(_RAFT_STATE.FOLLOWER)
             newEntries = message.get('entries', [])
             serialized = message.get('serialized', None)
@@ -1158,6 +1156,11 @@ class SyncObj(object):
             self.__sendAppendEntries()
 
         self.__sendAppendEntries()
+
+    def __setTermAndVote(self, term, votedForNodeId):
+        self.__raftCurrentTerm = term
+        self.__votedForNodeId = votedForNodeId
+        self.__raftLog.setRaftTermAndVote(term, votedForNodeId)
 
     def __setState(self, newState):
         oldState = self.__raftState
